@@ -413,6 +413,28 @@ class C06(object):
                     return {"class": "count-differs", "key": "indexer.histogram_drlv_fit:count-differs",
                             "detail": "histogram_drlv_fit: bin %d [%g, %g) holds %s peaks, %d peaks have their |drlv| there" %
                                       (kb, edges[kb], edges[kb + 1], goth[kb] if kb >= 0 else "?", wanth[kb])}, len(gs["trials"])
+        if np.isfinite(gv).all() and n and getattr(ix, "ra", None) is not None:
+            # indexer.refine: the score and fit it reports are those of the matrix it returns
+            g4 = np.random.default_rng(gs["bseed"] + 9)
+            Ustart = np.ascontiguousarray(ubi @ (np.eye(3) + g4.normal(0, g4.choice([1e-4, 3e-3, 1.5e-2]), (3, 3))))
+            ix.hkl_tol = float(desc["tol"])
+            try:
+                with contextlib.redirect_stdout(io.StringIO()):
+                    Uo = np.asarray(ix.refine(Ustart), float)
+                refined = True
+            except Exception:
+                refined = False       # "no contributing reflections": nothing to report
+            if refined:
+                sso = hkl_errors(Uo, gv)[2]
+                t2 = float(desc["tol"]) ** 2
+                if np.abs(sso - t2).min() > 1e-9:
+                    selo = (sso < t2) & (np.asarray(ix.ra) > -1)
+                    if int(ix.scorelastrefined) != int(selo.sum()) or (selo.any() and
+                            abs(float(ix.fitlastrefined) - math.sqrt(float(sso[selo].mean()))) > 1e-9 * max(1.0, float(ix.fitlastrefined))):
+                        return {"class": "count-differs", "key": "indexer.refine:count-differs",
+                                "detail": "indexer.refine reports %d peaks (fit %.6g) for the matrix it returns; %d ring-assigned peaks lie within "
+                                          "the tolerance of it (fit %.6g)" % (int(ix.scorelastrefined), float(ix.fitlastrefined), int(selo.sum()),
+                                                                              math.sqrt(float(sso[selo].mean())) if selo.any() else 0.0)}, len(gs["trials"])
         if np.isfinite(gv).all() and n > 1:
             # the indexer is given other g-vectors of the same number (the next grid point of a map, a second file): scores
             # and indexed peaks are those of the g-vectors it holds now
